@@ -26,7 +26,8 @@ EXPLANATION = (
     "sentinel, never by `is None` or truthiness (None is a context value); (h) no one-argument .get() lookup decides presence by "
     "comparing the value with None, and UpdateContext deep-copies the item it inserts before its first store into the value's context.  (i) Every iteration of the descent loop over the intermediate keys in contains and get_recursively either returns/raises or "
     "rebinds the descent variable to its item under that key: no path leaves the loop early or skips a key, so the string, "
-    "list and dictionary notations cannot disagree on how deep a path reaches.  Does not decide agreement of the three notations on values.")
+    "list and dictionary notations cannot disagree on how deep a path reaches.  (j) The look-up and conversion functions mutate none of their parameters through any "
+    "alias (an effect summary over assignments, loops and callees).  Does not decide agreement of the three notations on values.")
 RULES = {
     "C08-a": "GUARD: dictionary operations on values reached by descending into a context are dominated by isinstance(., dict)",
     "C08-b": "GUARD: [-1]/[0] of a key list is dominated by a non-emptiness test or a constructor check",
@@ -37,6 +38,8 @@ RULES = {
     "C08-g": "SENTINEL: absence of an optional context value is decided by a private sentinel, never by None/falsiness (None is a value)",
     "C08-i": "ONE KEY PER STEP: the descent loops of contains and get_recursively either leave the function or go exactly one "
              "level down for every intermediate key (no break/continue that skips the remaining keys)",
+    "C08-j": "READ-ONLY arguments: contains, get_recursively, str_to_dict, str_to_list, to_string and format_context change none of "
+             "their arguments in place (a key list handed in is still the same list afterwards)",
     "C08-h": "presence of a key is decided with `in` (or KeyError), never by comparing a looked-up value with None; UpdateContext "
              "copies the item it will insert before it creates or overwrites anything on the way to the target",
 }
@@ -819,7 +822,29 @@ def check_one_key_per_step(ctx):
     ctx.instances_floor("C08-i", n, 5, "paths through the descent loops")
 
 
+READ_ONLY = ("contains", "get_recursively", "str_to_dict", "str_to_list", "to_string", "format_context")
+
+
+def check_read_only(ctx):
+    """get_recursively(d, ["a", "b"]) is a question.  If the function consumes the list it was given (keys.pop()), the second
+    look-up with the same list object addresses the parent item, the third the grandparent: DeleteContext(path) after a
+    look-up deletes the wrong item, a selector keyed by a list selects on a different item for every value."""
+    from ..effects import Effects
+    eff = Effects(ctx.res)
+    n = 0
+    for qual in READ_ONLY:
+        fn = ctx.tree.func(FN, qual)
+        n += 1
+        mp = sorted(eff.mutated_params(fn))
+        ctx.check("C08-j", not mp, fn, "%s changes its argument%s %s in place: a key list (or context) handed to a look-up is different "
+                  "afterwards, so the same call repeated -- by the caller, or by an element that stores the list and uses it for "
+                  "every value -- addresses another item each time" % (qual, "s" if len(mp) > 1 else "", ", ".join(mp)),
+                  detail="%s mutates none of its parameters" % qual, construct="mutates-arg:%s" % qual)
+    ctx.instances_floor("C08-j", n, 6, "read-only context functions")
+
+
 def check(ctx):
+    check_read_only(ctx)
     check_one_key_per_step(ctx)
     check_lookup_and_snapshot(ctx)
     check_formatter_stateless(ctx)
@@ -833,6 +858,7 @@ def check(ctx):
 
 
 VARIANTS = [
+    M("get-recursively-pops-keys", "lena/context/functions.py", "    for key in keys[:-1]:\n        if key in d and isinstance(d.get(key), dict):", "    last_key = keys.pop() if keys else None\n    keys.append(last_key)\n    keys.pop()\n    for key in keys[:-1]:\n        if key in d and isinstance(d.get(key), dict):", ["C08-j"]),
     M("contains-breaks-at-scalar", "lena/context/functions.py", "        if not isinstance(subdict, dict) or key not in subdict:\n            return False\n",
       "        if not isinstance(subdict, dict):\n            break\n        if key not in subdict:\n            return False\n", ["C08-i"]),
     M("get-recursively-skips-missing-level", "lena/context/functions.py", "        if key in d and isinstance(d.get(key), dict):\n            d = d[key]\n        elif has_default:",
